@@ -12,7 +12,7 @@ GEN_MODULES = ("Tables", "Helpers")
 MIN_THEOREMS = 9
 US = D.US
 YMAX = Z.YMAX_QUICK
-MODES = ("add", "subtract", "plus_td", "minus_td", "roundtrip")
+MODES = ("add", "subtract", "plus_td", "radd_td", "minus_td", "roundtrip")
 RULE = ("sources: instants placed at {-gap-1s, -1us, 0, +1us, +gap/2, +gap} around sampled transitions of every zone (both folds of "
         "repeated wall times, canonical and default fold bit), plus naive, UTC and fixed offsets over years 1..9999; amounts: mixed-sign "
         "(h, m, s, us) with multi-unit carries, |total| up to 1e9 s, amounts that land exactly on/inside the next transition; modes "
@@ -105,7 +105,7 @@ def line(op, backend):
     _, mode, zr, w, f, h, mi, s, us = op
     if mode == "roundtrip":
         return "addsub %s %d %d %d %d %d %d" % (zr, w, f, h, mi, s, us)
-    if mode in ("plus_td", "minus_td"):
+    if mode in ("plus_td", "radd_td", "minus_td"):
         t = _total(_signed(op))
         return "add %s %d %d 0 0 0 0 0 0 0 %d" % (zr, w, f, t)
     a = _signed(op)
@@ -131,6 +131,8 @@ def impl(op, backend):
             r = x.subtract(hours=h, minutes=mi, seconds=s, microseconds=us)
         elif mode == "plus_td":
             r = x + dt.timedelta(hours=h, minutes=mi, seconds=s, microseconds=us)
+        elif mode == "radd_td":
+            r = dt.timedelta(hours=h, minutes=mi, seconds=s, microseconds=us) + x
         elif mode == "minus_td":
             r = x - dt.timedelta(hours=h, minutes=mi, seconds=s, microseconds=us)
         else:
